@@ -62,13 +62,16 @@ def run(ctx):
         traces = [ctx.replay]
     else:
         seeds = [ctx.seed] if q else [ctx.seed, ctx.seed + 1000, ctx.seed + 2000]
+        jobs = []
         for s in seeds:
-            t = os.path.join(ctx.work, "exact-%d.ndjson" % s)
-            lib.run_driver(exe, ["exact", t, scratch, 240 if q else 1500, 0 if q else 1], env={"VERIF_SEED": str(s)}, timeout=900, allow_fail=True)
-            traces.append(t)
-            t = os.path.join(ctx.work, "free-%d.ndjson" % s)
-            lib.run_driver(exe, ["free", t, scratch, 48 if q else 300, 0 if q else 1], env={"VERIF_SEED": str(s)}, timeout=1500, allow_fail=True)
-            traces.append(t)
+            for mode, n in (("exact", 240 if q else 1200), ("free", 48 if q else 240)):
+                t = os.path.join(ctx.work, "%s-%d.ndjson" % (mode, s))
+                sd = os.path.join(scratch, "%s-%d" % (mode, s))      # saved iterates of concurrent runs must not collide
+                os.makedirs(sd, exist_ok=True)
+                jobs.append((t, [mode, t, sd, n, 0 if q else 1], {"VERIF_SEED": str(s)}))
+                traces.append(t)
+        with cf.ThreadPoolExecutor(2 if q else 6) as ex:
+            list(ex.map(lambda j: lib.run_driver(exe, j[1], env=j[2], timeout=1500, allow_fail=True), jobs))
     for t in traces:
         if not os.path.exists(t) or os.path.getsize(t) == 0:
             raise lib.ModelFailure("no trace recorded: %s" % t)
@@ -174,7 +177,7 @@ def run(ctx):
             problems.append("flags %s" % sorted(seen["flags"]))
         if not {(0, False), (1, False), (1, True), (2, False), (2, True)} <= seen["prior"]:
             problems.append("priors %s" % sorted(seen["prior"]))
-        if seen["setup"] != {True, False} or seen["mode"] != {"exact", "free"} or seen["variant"] != {0, 1, 2}:
+        if seen["setup"] != {True, False} or seen["mode"] != {"exact", "free"} or seen["variant"] != {0, 1, 2, 3}:
             problems.append("set-up verdicts / modes / restart variants %s %s %s" % (seen["setup"], seen["mode"], seen["variant"]))
         if not {"Step", "Start", "Final", "Resume", "Cont"} <= seen["kinds"]:
             problems.append("kinds %s" % sorted(seen["kinds"]))
